@@ -354,7 +354,6 @@ func runBatch(r *h.Run, batch int, streams []stream) {
 			}(i)
 		}
 		wg.Wait()
-		r.EvalN(end - at)
 		// witnesses keep working
 		if err := exchange(w1, w2, at); err != nil {
 			fail("witness-disturbed", err.Error()+fmt.Sprintf(" after hostile streams %d..%d (kinds %v)", at, end-1, kindsOf(streams[at:end])), &streams[at])
@@ -378,6 +377,7 @@ func runBatch(r *h.Run, batch int, streams []stream) {
 		}
 	}
 	// every hostile connection releases its resources
+	r.EvalN(len(hostNames))
 	for _, name := range hostNames {
 		if !b.WaitClosed(name, bh.Watchdog) {
 			confirmed, stacks := stuck.Confirm(500*time.Millisecond, b.Log.Len, "github.com/256dpi/gomqtt/broker.(*Client)")
